@@ -5,7 +5,7 @@ Executable model (generic in `Num α`) of the ORANGE safety-distance path, as wr
   src/orange/univ/SimpleUnitTracker.hh         `safety(pos, vol)` (flag gate, min over faces)
   src/orange/univ/RectArrayTracker.hh          `safety(pos, vol)`
   src/orange/detail/UnitInserter.cc            `insert_volume` flag, `supports_simple_safety`
-  src/orange/OrangeTrackView.hh                `find_safety` (min over levels; the per-level
+  src/orange/OrangeTrackView.hh                `find_safety()`, `find_safety(max_step)` (min over levels; the per-level
                                                position is the transform-down chain of `operator=`)
   corecel/math/Algorithms.hh                   `min_element`, `min` (= `std::fmin` for reals)
 Built on Model/Surf.lean (calc_normal / calc_sense / calc_intersections are the C12 model).
@@ -159,5 +159,13 @@ def findSafetyFrom (acc : Option α) : List (Level α) → Vec3 α → Option α
 
 def findSafety (levels : List (Level α)) (pos : Vec3 α) : Option α :=
   findSafetyFrom none levels pos
+
+/-- `OrangeTrackView::find_safety(real_type max_step)` — the overload Urban MSC calls.  As
+    written: `return this->find_safety();` ("we currently support only simple safety distances,
+    we can't eliminate anything by checking only nearby surfaces"): the argument is ignored, every
+    level is visited, and neither tracker's `safety(pos, vol)` takes a maximum distance.
+    (tools/gen/safety.py pattern-checks exactly this body on every run.) -/
+def findSafetyMax (_maxStep : α) (levels : List (Level α)) (pos : Vec3 α) : Option α :=
+  findSafety levels pos
 
 end CelerVerif.Safety
